@@ -25,6 +25,7 @@
 #include <tins/packet_writer.h>
 #include <sys/mman.h>
 #include <tins/tins.h>
+#include <tins/pdu_cacher.h>
 #include <tins/tcp_ip/flow.h>
 #include <tins/tcp_ip/data_tracker.h>
 #include <tins/tcp_ip/ack_tracker.h>
